@@ -55,3 +55,20 @@ pub fn run_keytable(sc: &Value) -> Value {
         Err(e) => json!({"outcome": "err", "message": e.to_string()}),
     }
 }
+
+/// C12: a key document / a layout document with caller-chosen `keyid` members, decoded from text and from a tree
+pub fn run_keyjson(sc: &Value) -> Value {
+    use in_toto::models::LayoutMetadata;
+    let doc = &sc["doc"];
+    let text = doc.to_string();
+    let describe_key = |k: &PublicKey| format!("-={}", keyid(k));
+    let describe_layout = |l: &LayoutMetadata| { let mut v: Vec<String> = l.keys.iter().map(|(id, k)| format!("{}={}", serde_json::to_value(id).unwrap().as_str().unwrap(), keyid(k))).collect(); v.sort(); v.join(";") };
+    let outs: Vec<String> = if sc["type"] == "PublicKey" {
+        vec![serde_json::from_str::<PublicKey>(&text).map(|k| describe_key(&k)).unwrap_or_else(|_| "err".into()),
+             serde_json::from_value::<PublicKey>(doc.clone()).map(|k| describe_key(&k)).unwrap_or_else(|_| "err".into())]
+    } else {
+        vec![serde_json::from_str::<LayoutMetadata>(&text).map(|l| describe_layout(&l)).unwrap_or_else(|_| "err".into()),
+             serde_json::from_value::<LayoutMetadata>(doc.clone()).map(|l| describe_layout(&l)).unwrap_or_else(|_| "err".into())]
+    };
+    json!({"outcome": outs.join("/")})
+}
